@@ -18,12 +18,14 @@ import progs
 PROPERTY = "C04"
 LEVEL = "exploration"
 RULE = (
-    "cases = (program, tape, clock-mode): catalogue micro-programs with every single pre-emption placement "
-    "(thorough: pairs inside the contention window), enumerated nested-submission programs "
-    "(site x stack), and Hypothesis-drawn programs of <=3 client threads over stacks of depth <=4 with tapes of <=8 entries. "
-    "Non-trivial = at least one pre-emption was taken AND some thread had to wait for a lock, or the program nests a submission. "
-    "Distinct = digest of (program, tape, clock-mode). Oracle: no wait-for cycle, no client blocked with nothing runnable, no client "
-    "inside an API call after 10^4 virtual seconds, and no API call issued from user code on a library thread left unreturned at the end."
+    "cases = (program, tape, clock-mode): catalogue micro-programs with every single pre-emption placement (thorough: pairs inside "
+    "the contention window), enumerated nested-submission programs (site x stack; sites = callable, done-callback, map / error / "
+    "flat_map function, poll function, cancel function), and Hypothesis-drawn programs of <=3 client threads over stacks of depth <=4 "
+    "with tapes of <=8 entries. Non-trivial = at least one pre-emption was taken AND some thread had to wait for a lock, or the "
+    "program nests a submission. Distinct = digest of (program, tape, clock-mode). Oracle: no wait-for cycle, no client blocked with "
+    "nothing runnable, no client inside an API call after 10^4 virtual seconds, and no API call issued from user code on a library "
+    "thread left unreturned at the end; in the nested programs (nothing refused, shutdown last) a result(timeout) that runs into its "
+    "time-out is a stall."
 )
 ASSUMPTIONS = [
     "pre-emption granularity is one source line of more_executors/_impl plus every primitive operation",
